@@ -189,6 +189,20 @@ def _rawx_shape(models, it, base, node):
 OPAQUE_ATTRS[("RawX", "shape")] = _rawx_shape
 
 
+def _np_shape(models, it, args, kw, fr, node):
+    # np.shape(X) of the raw argument: works for every container (no attribute needed)
+    v = args[0] if args else None
+    if not (isinstance(v, SOpaque) and v.sort == "RawX"):
+        raise Unsupported("np.shape(%r)" % (v,), node)
+    m = v.meta
+    nd = m["ndim"]
+    if it.run.branch(z3.Or(m["is_df"], nd == 2), "raw-ndim2"):
+        return (m["d0"], z3.If(m["is_df"], m["d1"], m["d1"]))
+    if it.run.branch(nd == 1, "raw-ndim1"):
+        return (m["d0"],)
+    return ()
+
+
 # -- numpy entry points used by validation ---------------------------------------
 def np_array(models, it, args, kw, fr, node):
     v = args[0]
@@ -398,6 +412,7 @@ def _install_ext():
 
 HOOKS_COPY = []
 EXTRA_EXT = {}
+EXTRA_EXT["numpy.shape"] = lambda models, it, args, kw, fr, node: _np_shape(models, it, args, kw, fr, node)
 _install_ext()
 
 
